@@ -6,7 +6,9 @@
    not merge out of a control segment; export_html escapes the href value. *)
 From RichModel Require Import Prelude Cells Segments Wire Record SpecRecord.
 From RichGen Require Import RecordFacts.
-From RichProofs Require Import RecordP RecordP2 RecordP3 RecordP4.
+From RichProofs Require Import RecordP RecordP2 RecordP3 RecordP4 RecordP5 RecordP6.
+From RichModel Require Color Style SpecAnsi AnsiDecode SpecDecode.
+From RichProofs Require AnsiDecodeP4 AnsiDecodeP7.
 
 (* the hypothesis on the abstract ANSI wrapper: it is transparent to the (independent) terminal-text
    scanner -- if the scanner, started at rest on a text, ends at rest having shown o, then on the wrapped
@@ -78,30 +80,42 @@ Theorem C15_export_html_text :
 Proof. exact export_html_text_fixed. Qed.
 Print Assumptions C15_export_html_text.
 
-(* the document around the code is the template regenerated from /repo; that pre_code recovers the code
-   from the document is NOT proved for all records (it needs "no <pre in a CSS rule"); it is evaluated on
-   every exported document of the implementation and here on an instance.
-   Full statement:  pre_code (export_html .. r) = Some (html_code .. r).  *)
-Example C15_html_document_partial :
+(* (2b) THE DOCUMENT.  export_html's document is the template regenerated from /repo (str.format with the
+   stylesheet block, the theme colours and the code); pre_code -- the independent extraction of the body
+   of the first <pre ...> element -- applied to it returns exactly the code: every record, both the
+   inline and the stylesheet variant, any text and link; relative to: a CSS rule contains no '<'. *)
+Theorem C15_html_document :
+  forall truthy html_rule html_link, (forall s, nolt_b (html_rule s) = true) ->
+  forall keep inline (r : list sg),
+  pre_code (export_html truthy html_rule html_link keep href_is_escaped inline r)
+  = Some (html_code truthy html_rule html_link keep href_is_escaped inline r).
+Proof. exact html_document. Qed.
+Print Assumptions C15_html_document.
+
+Example C15_html_document_nonvacuous :
   let r := [mkSeg (lit "a<b") (Some 1) false; mkSeg [NL] None false] in
   pre_code (export_html all_truthy (fun _ => lit "color: #800000") quote_link true true false r)
-  = Some (html_code all_truthy (fun _ => lit "color: #800000") quote_link true true false r).
+  = Some (lit "<a href=""a&quot;&gt;b""><span class=""r1"">a&lt;b</span></a>" ++ [NL]).
 Proof. vm_compute. reflexivity. Qed.
 
-(* (1)+(2)+(3a) the checker evaluated on the implementation, on the model, for every history *)
+(* (1)+(2)+(3a) the very checker that is evaluated on the implementation's file / exports (it takes the
+   whole HTML document), on the model, after every well-formed history *)
 Theorem C15_exports_agree :
-  forall truthy esc html_rule html_link, esc_removable esc -> (forall s, no_quote (html_rule s)) ->
+  forall truthy esc html_rule html_link, esc_removable esc ->
+  (forall s, no_quote (html_rule s)) -> (forall s, nolt_b (html_rule s) = true) ->
   forall c h inline, wf_hist_b c h = true ->
   let '(s, es) := run truthy esc html_rule html_link simplify_keeps_control href_is_escaped c st0 h in
-  texts_agree_b (rendered_since_clear [] h es) (export_plain (rec_ s))
-    (html_code truthy html_rule html_link simplify_keeps_control href_is_escaped inline (rec_ s))
+  exports_agree_b (rendered_since_clear [] h es) (export_plain (rec_ s))
+    (export_html truthy html_rule html_link simplify_keeps_control href_is_escaped inline (rec_ s))
     (export_styled truthy esc (rec_ s)) = true.
 Proof.
-  intros truthy esc html_rule html_link He Hq c h inline Hwf.
+  intros truthy esc html_rule html_link He Hq Hl c h inline Hwf.
   pose proof (record_is_visible_of_rendered truthy esc html_rule html_link He
                 simplify_keeps_control href_is_escaped c h Hwf) as P.
   destruct (run truthy esc html_rule html_link simplify_keeps_control href_is_escaped c st0 h) as [s es].
-  destruct P as [P1 P2]. unfold texts_agree_b.
+  destruct P as [P1 P2]. unfold exports_agree_b.
+  rewrite (C15_html_document truthy html_rule html_link Hl simplify_keeps_control inline (rec_ s)).
+  unfold texts_agree_b.
   rewrite P1, P2, (C15_export_html_text truthy html_rule html_link Hq inline (rec_ s)), str_eqb_refl.
   reflexivity.
 Qed.
@@ -142,6 +156,59 @@ Proof.
   exact (styled_export_decodes_rec truthy esc dec neutral H1 H2 H3 H4 (rec_ s) P).
 Qed.
 Print Assumptions C15_styled_export_decodes.
+
+(* (3r) NO ABSTRACT ORACLE: tokens interpreted as real styles (sty_of), esc := the model of Style.render
+   (RichModel.Style.style_render, b-C06/C03) -- it satisfies esc_removable whenever the styles are well
+   formed (colours well formed, link free of ESC/BEL/ST), carry no stale _ansi memo, and the link id is
+   free of ESC/BEL/ST/';' *)
+Theorem C15_esc_removable_real :
+  forall (sty_of : Z -> Style.style) lid,
+  (forall s, SpecAnsi.style_wf (sty_of s) = true) -> (forall s, Style.s_ansi (sty_of s) = None) ->
+  SpecAnsi.lid_ok lid = true ->
+  esc_removable (real_esc sty_of lid).
+Proof. intros sty_of lid H1 H2 H3 cs lw s t o. exact (real_esc_transparent sty_of lid H1 H2 H3 cs lw s t o). Qed.
+Print Assumptions C15_esc_removable_real.
+
+(* ... so (1) holds for the real encoder with no hypothesis on an abstract wrapper *)
+Theorem C15_export_text_is_visible_of_rendered_real :
+  forall (sty_of : Z -> Style.style) lid html_rule html_link,
+  (forall s, SpecAnsi.style_wf (sty_of s) = true) -> (forall s, Style.s_ansi (sty_of s) = None) ->
+  SpecAnsi.lid_ok lid = true ->
+  forall kc he c h clear, wf_hist_b c h = true ->
+  let '(s, es) := run (real_truthy sty_of) (real_esc sty_of lid) html_rule html_link kc he c st0 h in
+  ret (snd (step (real_truthy sty_of) (real_esc sty_of lid) html_rule html_link kc he c s (ExportText clear false)))
+  = Some (visible (rendered_since_clear [] h es)) /\
+  visible (export_styled (real_truthy sty_of) (real_esc sty_of lid) (rec_ s)) = export_plain (rec_ s).
+Proof.
+  intros sty_of lid html_rule html_link H1 H2 H3 kc he c h clear Hwf.
+  pose proof (record_is_visible_of_rendered (real_truthy sty_of) (real_esc sty_of lid) html_rule html_link
+                (C15_esc_removable_real sty_of lid H1 H2 H3) kc he c h Hwf) as P.
+  destruct (run (real_truthy sty_of) (real_esc sty_of lid) html_rule html_link kc he c st0 h) as [s es].
+  destruct P as [P1 P2]. split; [cbn; rewrite P1; reflexivity|exact P2].
+Qed.
+Print Assumptions C15_export_text_is_visible_of_rendered_real.
+
+(* (3d) the styled export read back by rich's OWN decoder (C19's model of AnsiDecoder.decode): for a record
+   in line form (each line's segments, then Segment("\n") -- what print/log leave in the record) without
+   control segments, whose runs meet C19's run_ok2 (clean text, fresh well-formed styles, links free of
+   ESC and line boundaries): one decoded line per line, the same characters with the same visible
+   attributes / colours / link, decoder left clean.  Rests on C19_decode_encode (full).
+   NOT covered, and why: (i) records containing control segments -- AnsiDecoder is not transparent to
+   non-SGR control sequences (re_ansi's lazy `ESC[ (.*?) m` swallows text after e.g. ESC[2J up to the next
+   'm'), so this is false of the real decoder; the statement (3) above covers them for a decoder that skips
+   them; (ii) a last line without its "\n" (print(end="")): missing adapter lemma
+     decode true st (e ++ a) = decode_lines (lines of e ++ [a])   for a boundary-free tail a
+   (C19 proves it only for tails terminated by LF: AnsiDecodeP7.decode_threads). *)
+Theorem C15_styled_export_decodes_real :
+  forall (sty_of : Z -> Style.style) lid (t : list (list sg)) e st,
+  AnsiDecodeP7.lid_ok2 lid -> Forall (Forall AnsiDecodeP7.run_ok2) (map (map (run_of sty_of)) t) ->
+  SpecDecode.encode_lines lid (map (map (run_of sty_of)) t) = Ok e -> AnsiDecodeP4.clean st None ->
+  exists st' d,
+    AnsiDecode.decode true st (export_styled (real_truthy sty_of) (real_esc sty_of lid) (rec_of_lines t)) = (st', Ok d)
+    /\ Forall2 (fun runs ps => SpecDecode.vchars ps = SpecDecode.vchars runs) (map (map (run_of sty_of)) t) d
+    /\ AnsiDecodeP4.clean st' None.
+Proof. exact styled_export_decodes_real. Qed.
+Print Assumptions C15_styled_export_decodes_real.
 
 (* (4) a capture block opened at the top level (after any balanced history) returns exactly what its
    calls write when made without the capture, and nothing reaches the file meanwhile *)
@@ -210,6 +277,24 @@ Proof.
   destruct html_text_asis_href_witness as [-> ->]. discriminate.
 Qed.
 Print Assumptions C15_export_html_href_asis_refuted.
+
+(* NESTED CAPTURES -- known finding C15-nested-capture (corpus/C15_known).  The property quantifies over
+   "all sequences of print/log/rule/line/capture/export calls", which includes a capture opened inside
+   another one; there the inner end_capture returns (and removes) what the outer block had printed so far.
+   (a) the inner block returns MORE than was printed inside it: theorem (4) fails for a prefix that is not
+   balanced; (b) the outer block returns LESS.  Modelled as found; repair not small (see notes). *)
+Theorem C15_capture_inner_refuted : exists c pre blk,
+  nocap blk = true /\ balanced pre = false /\
+  let '(s, _) := run all_truthy toy_esc norule nolink true true c st0 pre in
+  let '(_, es_c) := run all_truthy toy_esc norule nolink true true c s (BeginCapture :: blk ++ [EndCapture]) in
+  let '(_, es_p) := run all_truthy toy_esc norule nolink true true c s blk in
+  capture_ok_b (ret_or_nil (last es_c (mkEv [] None))) (file_of es_p) (file_of es_c) = false.
+Proof.
+  exists (mkCfg 80 false 0 false), [BeginCapture; Print false [mkSeg (lit "a") None false]],
+    [Print false [mkSeg (lit "b") None false]].
+  vm_compute. repeat split; reflexivity.
+Qed.
+Print Assumptions C15_capture_inner_refuted.
 
 (* nested captures (upstream behaviour, modelled as is, not repaired): the inner end_capture takes what
    the outer block had printed, so theorem (4) does not extend to blocks containing captures *)
